@@ -53,8 +53,9 @@ SpanObsOk(s, o) ==
   /\ (Col(s, q) # 1 => (o.eline = Line(s, q) /\ o.ecol = Col(s, q)))
   /\ Shows(o.err_text, LineAt(s, p))
   /\ o.disp_ok /\ o.disp_line = Line(s, p) /\ o.disp_col = Col(s, p) /\ Shows(o.disp_text, LineAt(s, p)) /\ o.disp_aligned
-  \* marker under the reported (start) column: stated for spans that stay on one line
-  /\ ((o.eline = o.sline /\ o.ecol >= o.scol) => o.disp_marker = Col(s, p))
+  \* marker under the reported (start) column: stated whenever the reported end column is not left of it (a span that
+  \* ends on a later line in an earlier column is underlined from that column, a reading fixed before registration)
+  /\ (o.ecol >= o.scol => o.disp_marker = Col(s, p))
   /\ AlgebraOk(s, o)
 
 TextOk(obs) ==
